@@ -140,6 +140,7 @@ type VChange struct {
 
 type VProblem struct {
 	Obj     string `json:"obj"`
+	UID     string `json:"uid"`
 	IsError bool   `json:"is_error"`
 	Reason  string `json:"reason"`
 	Msg     string `json:"msg"`
@@ -295,16 +296,16 @@ func (a *VerifArb) Changes(cs []ResourceChange) []VChange {
 func (a *VerifArb) Problems(ps []ConfigurationProblem) []VProblem {
 	out := []VProblem{}
 	for _, p := range ps {
-		var obj string
+		var obj, uid string
 		switch o := p.Object.(type) {
 		case *networking.Ingress:
-			obj = getResourceKeyWithKind(ingressKind, &o.ObjectMeta)
+			obj, uid = getResourceKeyWithKind(ingressKind, &o.ObjectMeta), string(o.UID)
 		case *conf_v1.VirtualServer:
-			obj = getResourceKeyWithKind(virtualServerKind, &o.ObjectMeta)
+			obj, uid = getResourceKeyWithKind(virtualServerKind, &o.ObjectMeta), string(o.UID)
 		case *conf_v1.VirtualServerRoute:
-			obj = getResourceKeyWithKind(virtualServerRouteKind, &o.ObjectMeta)
+			obj, uid = getResourceKeyWithKind(virtualServerRouteKind, &o.ObjectMeta), string(o.UID)
 		case *conf_v1.TransportServer:
-			obj = getResourceKeyWithKind(transportServerKind, &o.ObjectMeta)
+			obj, uid = getResourceKeyWithKind(transportServerKind, &o.ObjectMeta), string(o.UID)
 		default:
 			obj = fmt.Sprintf("?%T", p.Object)
 		}
@@ -312,7 +313,7 @@ func (a *VerifArb) Problems(ps []ConfigurationProblem) []VProblem {
 		if p.IsError {
 			msg = "invalid"
 		}
-		out = append(out, VProblem{Obj: obj, IsError: p.IsError, Reason: p.Reason, Msg: msg})
+		out = append(out, VProblem{Obj: obj, UID: uid, IsError: p.IsError, Reason: p.Reason, Msg: msg})
 	}
 	return out
 }
